@@ -435,6 +435,31 @@ class NpEval:
         if self.excluded is None:
             self.excluded = why
 
+    def _int_product_sum_check(self, a, b, fn, what):
+        """sum of products of integers: outside the fragment when it can overflow the (narrow) result type"""
+        a, b = np.asarray(a), np.asarray(b)
+        if np.result_type(a, b).kind in "iub" and a.size and b.size:
+            with np.errstate(all="ignore"):
+                f = np.asarray(fn(np.abs(a.astype(np.float64)), np.abs(b.astype(np.float64))))
+            if f.size and np.max(f) >= 2.0 ** 30:
+                self.exclude("integer overflow in " + what)
+
+    def _complex_negation_check(self, x, direct, what):
+        """pymbolic spells -z as (-1)*z and a-b as a+(-1)*b; for complex z NumPy itself gives the two spellings
+        different results at signed zeros and non-finite components (complex multiplication by -1+0j): a singular
+        point, not decided"""
+        x = np.asarray(x)
+        if x.dtype.kind != "c" or not x.size:
+            return
+        with np.errstate(all="ignore"):
+            alt = np.asarray(what(x))
+        d = np.asarray(direct)
+
+        def same(u, v):
+            return np.array_equal(u, v, equal_nan=True) and np.array_equal(np.signbit(u), np.signbit(v))
+        if not (same(d.real, alt.real) and same(d.imag, alt.imag)):
+            self.exclude("complex negation/subtraction at a signed zero or non-finite component (NumPy's -z and (-1)*z differ)")
+
     def __call__(self, t):
         if is_scalar_term(t):
             return scalar_value(t)
@@ -488,7 +513,10 @@ class NpEval:
         if h == "arange":
             return np.arange(*t[1], dtype=np.dtype(t[2]))
         if h == "neg":
-            return -E(t[1])
+            x = E(t[1])
+            r = -x
+            self._complex_negation_check(x, r, lambda z: -1 * z)
+            return r
         if h == "abs":
             return abs(E(t[1]))
         if h == "lnot":
@@ -520,6 +548,9 @@ class NpEval:
                 if bn.dtype.kind in "iu" and bn.size:
                     self.nred = max(self.nred, int(np.abs(bn).max()))
             r = BINOPS[op](a, b)
+            if op == "sub" and ra.kind == "c":
+                an = np.asarray(a)
+                self._complex_negation_check(np.asarray(b).astype(ra), r, lambda z: an + (-1) * z)
             if op in ("add", "sub", "mul", "pow"):
                 self._intcheck(op, a, b, r)
             if op == "truediv" and np.any(np.asarray(b) == 0):
@@ -583,17 +614,20 @@ class NpEval:
             a, b = np.asarray(E(t[1])), np.asarray(E(t[2]))
             self._sum_operands_finite(a, b)
             self.nred = max(self.nred, a.shape[-1] if a.ndim else 1)
+            self._int_product_sum_check(a, b, lambda x, y: x @ y, "matmul")
             return a @ b
         if h == "dot":
             a, b = E(t[1]), E(t[2])
             self._sum_operands_finite(a, b)
             if np.ndim(a):
                 self.nred = max(self.nred, np.shape(a)[-1])
+            self._int_product_sum_check(a, b, np.dot, "dot")
             return np.dot(a, b)
         if h == "vdot":
             a, b = E(t[1]), E(t[2])
             self._sum_operands_finite(a, b)
             self.nred = max(self.nred, np.size(a))
+            self._int_product_sum_check(a, b, np.vdot, "vdot")
             return np.vdot(a, b)
         if h == "stack":
             return np.stack([E(a) for a in t[2:]], axis=t[1])
